@@ -14,6 +14,7 @@ import contextlib
 import copy
 import itertools
 import json
+import re
 import logging
 
 from common import Ctx, Failure, cjson, clist, copt, cpair, cstr, cnat, corpus_cases
@@ -79,6 +80,39 @@ for _n in ("Environment", "NameContainer", "Evaluator", "evaluation", "celtypes"
 # documents: tagged form  ["c", scalar] | ["p", root, [seg..]] | ["l", [doc..]] | ["m", [[k, doc]..]]
 # ---------------------------------------------------------------------------
 
+# The documented exception of property C11, restated by hand exactly as harness/props/C11.py does (NOT imported from
+# koreo): a value written STATICALLY into a definition that is a string in this grammar is delivered as that number.
+NUMERAL = re.compile(r"-?[0-9]+(\.[0-9]+)?([eE][+-]?[0-9]+)?")
+INT_NUMERAL = re.compile(r"-?[0-9]+")
+
+
+def is_numeral(x) -> bool:
+    return isinstance(x, str) and NUMERAL.fullmatch(x) is not None
+
+
+def static_delivered(v):
+    """what a value written statically into a spec (spec.locals, a constant leaf) is when koreo hands it on:
+    itself, except that numeral strings are numbers.  The harness never means to test that conversion here (it is
+    C11's subject): generators avoid such strings in everything they write statically, and every consumer of a
+    statically written value (activation of the helper level, reference, Coq term) goes through this function so
+    that a case from any source (corpus, replay) is still judged on the value koreo really delivers."""
+    if is_numeral(v):
+        return int(v) if INT_NUMERAL.fullmatch(v) else float(v)
+    if isinstance(v, dict):
+        return {k: static_delivered(x) for k, x in v.items()}
+    if isinstance(v, list):
+        return [static_delivered(x) for x in v]
+    return v
+
+
+def has_numeral_string(v) -> bool:
+    if isinstance(v, dict):
+        return any(has_numeral_string(x) for x in v.values())
+    if isinstance(v, list):
+        return any(has_numeral_string(x) for x in v)
+    return is_numeral(v)
+
+
 def is_ident(s: str) -> bool:
     return s.isascii() and s.isidentifier() and s not in RESERVED
 
@@ -121,7 +155,7 @@ def spec_of_pairs(pairs):
 
 def c_expr(d):
     if d[0] == "c":
-        return f"(EConst {cjson(d[1])})"
+        return f"(EConst {cjson(static_delivered(d[1]))})"
     if d[0] == "f":
         # a function-call leaf is a COMPUTED value for the model: its value is the one koreo gives the same
         # expression when it is evaluated on its own, on private copies of the activation (resolve_fn)
@@ -186,7 +220,7 @@ def ref_path(env, root, segs):
 def ref_eval(d, env):
     t = d[0]
     if t == "c":
-        return d[1]
+        return static_delivered(d[1])
     if t == "f":
         if len(d) > 4 and "v" in d[4]:
             return copy.deepcopy(d[4]["v"])
@@ -762,6 +796,10 @@ def run_rf(case):
     R = real()
     R.reset()
     try:
+        # `locals` are realised as STATIC values of spec.locals (cache / reconcile level): every level, the
+        # reference and the model must see them as koreo delivers static values
+        if has_numeral_string(case["env"].get("locals")):
+            case = {**case, "env": {**case["env"], "locals": static_delivered(case["env"]["locals"])}}
         if rf_has_fn(case):
             case = resolve_rf(case)
         got = _run_rf(R, case)
@@ -1176,7 +1214,7 @@ class fn_stream:
         P_FN[0] = self.old
 
 
-def g_fx(rng):
+def g_fx(rng, static=False):
     """values for the extension functions to chew on, to be placed under `fx` in inputs / locals / resource:
     nested lists of lists (of maps), mixed-case strings, reference-shaped maps, an object with status.conditions,
     two overlapping maps, base64 and JSON texts"""
@@ -1198,8 +1236,11 @@ def g_fx(rng):
     if rng.random() < 0.3:
         ref["apiGroup"] = "explicit.group"
     text = rng.choice(["Mixed/Case/Path", "  padded  ", "a,b,,c", "xxSTRIPxx", "", "one"])
+    js = json.dumps(g_json(rng, 2))
+    if static and is_numeral(js):
+        js = json.dumps([json.loads(js)])       # written statically (spec.locals): must not be a bare numeral
     return {"ll": ll, "s": text, "obj": obj, "ref": ref, "m1": g_nested(rng, 2), "m2": g_nested(rng, 2),
-            "b64": base64.b64encode(text.encode()).decode(), "js": json.dumps(g_json(rng, 2)),
+            "b64": base64.b64encode(text.encode()).decode(), "js": js,
             "any": g_json(rng, 2), "deep": {"ll": [[{"a": [1]}], [[2], {"b": {}}], []]}}
 
 
@@ -1303,7 +1344,7 @@ def g_env(rng, with_locals=True, fx=False):
     if fx:
         env["inputs"]["fx"] = g_fx(rng)
         if with_locals and rng.random() < 0.4:
-            env["locals"]["fx"] = g_fx(rng)
+            env["locals"]["fx"] = g_fx(rng, static=True)
     return env
 
 
@@ -1817,6 +1858,8 @@ def run(ctx: Ctx):
                 if got["prepared"] != "ok":
                     ctx.count("rf:unprepared")
                     continue
+                if has_numeral_string(case["env"].get("locals")):
+                    ctx.count("rf:static-locals-with-numeral-strings(normalised)")
                 ctx.count(f"rf:steps:{len(case['steps'])}")
                 ctx.count(f"rf:template:{case['template'][0]}")
                 ctx.count(f"rf:target:{got['obs']['target'][0]}")
